@@ -53,10 +53,10 @@ func c08Families(tier fw.Tier) []docFamily {
 			}
 			return t, nil, false
 		}})
-		// TRAIL: 1-3 records, 1-3 blank lines between them, 0-8 blank lines after the last one, LF / CRLF; read with EVERY
+		// TRAIL: 1-3 records, 1-3 blank lines between them, 0-30 blank lines after the last one, LF / CRLF; read with EVERY
 		// worker count (blank lines at the end of a chunk, chunks that are blank altogether)
-		fs = append(fs, docFamily{"TRAIL", 3 * 2 * 3 * 9 * 2, func(i int) (string, []sm.Record, bool) {
-			d := docgen.Radix(i, 3, 2, 3, 9, 2)
+		fs = append(fs, docFamily{"TRAIL", 3 * 2 * 3 * 31 * 2, func(i int) (string, []sm.Record, bool) {
+			d := docgen.Radix(i, 3, 2, 3, 31, 2)
 			eol := []string{"\n", "\r\n"}[d[4]]
 			text := ""
 			for r := 0; r <= d[0]; r++ {
